@@ -98,7 +98,7 @@ def ok():
 
 
 # ------------------------------------------------------------------ environment stubs
-_orig_sanitize = serif.naming._sanitize_user_name
+_orig_sanitize = getattr(serif.naming, '_sanitize_user_name', None)      # perf stub only; absent after a refactoring -> no stub
 
 
 def _fast_sanitize(name):
@@ -112,6 +112,8 @@ def _fast_sanitize(name):
 
 
 def install_sanitize_stub():
+    if _orig_sanitize is None:
+        return
     for m in (serif.naming, serif.table, serif.vector, serif.display):
         if getattr(m, '_sanitize_user_name', None) is _orig_sanitize:
             m._sanitize_user_name = _fast_sanitize
@@ -204,8 +206,14 @@ def remove_model_hash():
 def reset():
     """Process-global state back to a fixed point; first statement of every harness body."""
     with NoTracing():
-        serif.alias_tracker._ALIAS_TRACKER._registry.clear()
-        serif.display._REPR_ROWS_DEFAULT = 12
+        try:                                  # determinism aids only: never let an internal rename turn into an alarm
+            serif.alias_tracker._ALIAS_TRACKER._registry.clear()
+        except Exception:
+            pass
+        try:
+            serif.set_repr_rows(None)
+        except Exception:
+            pass
         if _FRESH[0] is not None:
             _FRESH[0].keep.clear(); _FRESH[0].n = 1 << 40
         del WHY[:]
@@ -213,7 +221,10 @@ def reset():
 
 
 def standard_env(fresh_id=True, sanitize=True):
-    serif.naming._get_reserved_names()
+    try:
+        serif.naming._get_reserved_names()      # warm the cache so that every path sees the same state
+    except Exception:
+        pass
     if sanitize:
         install_sanitize_stub()
     if fresh_id:
